@@ -216,6 +216,32 @@ def simulate(module, cfg_path, num, depth, sd, timeout=900):
     return hists
 
 
+def cover(module, cfg_path, workers=8, timeout=1800):
+    """TLC breadth-first under an abstraction VIEW with ExportAll: one history per reachable
+    (abstract state, incoming input) pair; returns the maximal histories (no history that is a
+    prefix of another)"""
+    rc, out = _tlc(["-workers", str(workers), "-config", cfg_path, module], timeout=timeout)
+    hs, seen = [], set()
+    for line in out.splitlines():
+        m = re.search(r'<<"SCENARIO", "(.*)">>', line.strip())
+        if not m:
+            continue
+        js = tla_unescape(m.group(1))
+        if js in seen:
+            continue
+        seen.add(js)
+        hs.append(json.loads(js))
+    if not hs:
+        errs = [l for l in out.splitlines() if "rror" in l[:60]]
+        raise ToolError("TLC cover failed on %s: %s" % (module, "; ".join(errs[:4])[:600]))
+    prefixes = set()
+    for h in hs:
+        for i in range(1, len(h)):
+            prefixes.add(json.dumps(h[:i]))
+    m = re.search(r"(\d+) states generated, (\d+) distinct states found", out)
+    return [h for h in hs if json.dumps(h) not in prefixes], (int(m.group(2)) if m else len(hs))
+
+
 def trace_run(module, cfg_path, trace_path, out_path, timeout=1800):
     """run a trace-validation spec (monitor or conformance) over a normalised trace; returns the JSON verdict"""
     if os.path.exists(out_path):
